@@ -4,7 +4,8 @@ import SqlObjVerif.Lemmas.Inherit
 
 Property theorems only.  `T` is an arbitrary well-formed class tree (any depth, any branching,
 several roots allowed), `db` the tables of all classes, histories are arbitrary lists of
-create / attribute write / `set` / destroy operations entered through any class.
+create / attribute write / `set` / destroy operations entered through any class, plus the
+class-level `deleteMany` / `deleteBy`.
 `NoOrphan`, `LeafRow` are defined in `Lemmas/Inherit.lean`; the operations in `Model/Inherit.lean`
 (`Extracted/Inherit.lean` supplies the control-flow facts read from the source).
 -/
@@ -268,56 +269,89 @@ theorem C15_destroy_removes_all_levels (T : Tree) (h : T.WF) (db : DB) (inv : No
     rw [if_neg this]
   · exact destroy_preserves h inv _ hleaf
 
-/-! ### class-level bulk deletes (`deleteMany`, `deleteBy`) — where the code violates the statement
+/-! ### class-level bulk deletes (`deleteMany`, `deleteBy`)
 
-`InheritableSQLObject` inherits `SQLObject.deleteMany` / `deleteBy` unchanged: one raw DELETE on the
-table of the class they are called on.  "No sequence of operations leaves a row at one level
-without its counterparts" is therefore false once these two are counted as operations; the
-harness replays the witness on the real code (keys `C15:deleteBy-leaves-orphans`,
-`C15:deleteMany-leaves-orphans`). -/
+`SQLObject.deleteMany` / `deleteBy` send one raw DELETE on the table of the class they are called
+on; inherited unchanged they left the rows of the other levels behind (witnesses kept in
+`corpus/C15`).  `InheritableSQLObject` now overrides both to `destroySelf()` every selected object
+(`Extracted.bulkDeleteDestroys`), and the statement holds in full. -/
 
-/-- full statement, false of the code: a `K3` exists (id 1), `K3.deleteBy()` removes only `K3`'s
-    row, `K1`'s row 1 keeps pointing to it -/
-theorem C15_bulk_delete_keeps_no_orphan_full_FALSE :
-    ¬ (∀ (T : Tree), T.WF → ∀ (db : DB), NoOrphan T db → ∀ (c : Nat) (f : Filter),
-        NoOrphan T (bulkDelete db c f)) := by
-  intro hall
-  have inv := hall T0 T0_wf db0 (C15_no_orphan_inv T0 T0_wf _) 3 .tt
-  have hc : ((bulkDelete db0 3 .tt) 1 1).map (·.child) = some (some 3) := by decide
-  cases hr : (bulkDelete db0 3 .tt) 1 1 with
-  | none => rw [hr] at hc; cases hc
-  | some r =>
-    rw [hr] at hc
-    have hrc : r.child = some 3 := by simpa using hc
-    have := (inv.down 1 1 r 3 hr hrc).2
-    revert this; decide
+/-- `cls.deleteMany(where)` over own and inherited columns: every row of `cls`'s table that
+    satisfies the clause disappears at every level of its hierarchy, nothing else changes, and the
+    invariant is kept -/
+theorem C15_deleteMany_removes_all_levels (T : Tree) (h : T.WF) (db : DB) (inv : NoOrphan T db)
+    (c : Nat) (f : Filter) :
+    NoOrphan T (deleteMany T db c f) ∧
+    (∀ j, db.has c j = true → f.eval db j = true →
+        ∀ c', T.root c' = T.root c → deleteMany T db c f c' j = none) ∧
+    (∀ c' j, ¬ (db.has c j = true ∧ f.eval db j = true) → deleteMany T db c f c' j = db c' j) ∧
+    (∀ c' j, T.root c' ≠ T.root c → deleteMany T db c f c' j = db c' j) := by
+  refine ⟨deleteMany_preserves h inv c f, ?_, ?_, ?_⟩
+  · intro j hrow hf c' hroot
+    have hs : selectRow T db c f j = some (get T db (T.root c) j) := by
+      rw [selectRow_eq h inv]; simp [hrow, hf]
+    obtain ⟨_, _, m, hm, hleaf, hcm⟩ := selectRow_ok h inv hs
+    unfold deleteMany
+    rw [deleteSel_spec, hs, hm]
+    by_cases hc' : c' ∈ T.anc m
+    · simp [hc']
+    · simp only [hc', if_false]
+      cases hr : db c' j with
+      | none => rfl
+      | some r =>
+        exfalso
+        exact hc' ((C15_row_iff_on_chain T h db inv m j hleaf c'
+          (hroot.trans (root_of_mem h m c hcm))).mp (has_iff.mpr ⟨r, hr⟩))
+  · intro c' j hno
+    have hs : selectRow T db c f j = none := by
+      rw [selectRow_eq h inv]
+      have : ¬ ((db.has c j && f.eval db j) = true) := by simpa using hno
+      simp [this]
+    unfold deleteMany
+    rw [deleteSel_spec, hs]
+  · intro c' j hroot
+    unfold deleteMany
+    rw [deleteSel_spec]
+    cases hs : selectRow T db c f j with
+    | none => rfl
+    | some res =>
+      obtain ⟨_, _, m, hm, _, hcm⟩ := selectRow_ok h inv hs
+      subst hm
+      have : c' ∉ T.anc m := by
+        intro hc'
+        exact hroot ((root_of_mem h m c' hc').trans (root_of_mem h m c hcm).symm)
+      simp [this]
 
-/-- what does hold: a bulk delete on a class that is not part of a hierarchy (no parent, no
-    subclass) keeps the invariant -/
-theorem C15_bulk_delete_keeps_no_orphan_partial (T : Tree) (db : DB) (inv : NoOrphan T db)
-    (c : Nat) (f : Filter) (hroot : T.parent c = none) (hleaf : ∀ d, T.parent d ≠ some c) :
-    NoOrphan T (bulkDelete db c f) := by
-  constructor
-  · intro c' p' i hp' hrow
-    have hc' : c' ≠ c := by intro e; subst e; rw [hroot] at hp'; cases hp'
-    have hp'c : p' ≠ c := by intro e; subst e; exact hleaf c' hp'
-    have hrow' : db.has c' i = true := by
-      simpa [DB.has, bulkDelete, hc'] using hrow
-    obtain ⟨r, hr, hrc⟩ := inv.up c' p' i hp' hrow'
-    exact ⟨r, by simp [bulkDelete, hp'c, hr], hrc⟩
-  · intro p i r c' hr hrc
-    have hpc : p ≠ c := by
-      intro e; subst e
-      have hr' : db p i = some r := by
-        simp only [bulkDelete] at hr
-        split at hr
-        · cases hr
-        · exact hr
-      exact hleaf c' (inv.down p i r c' hr' hrc).1
-    have hr' : db p i = some r := by simpa [bulkDelete, hpc] using hr
-    obtain ⟨hpar, hrow⟩ := inv.down p i r c' hr' hrc
-    have hc'c : c' ≠ c := by intro e; subst e; rw [hroot] at hpar; cases hpar
-    exact ⟨hpar, by simpa [DB.has, bulkDelete, hc'c] using hrow⟩
+/-- the same for `cls.deleteBy(**kw)` -/
+theorem C15_deleteBy_removes_all_levels (T : Tree) (h : T.WF) (db : DB) (inv : NoOrphan T db)
+    (c : Nat) (kvs : List (Nat × Nat × Val)) :
+    NoOrphan T (deleteBy T db c kvs) ∧
+    (∀ j, db.has c j = true → kvsHold db j kvs = true →
+        ∀ c', T.root c' = T.root c → deleteBy T db c kvs c' j = none) ∧
+    (∀ c' j, ¬ (db.has c j = true ∧ kvsHold db j kvs = true) → deleteBy T db c kvs c' j = db c' j) := by
+  refine ⟨deleteBy_preserves h inv c kvs, ?_, ?_⟩
+  · intro j hrow hf c' hroot
+    have hs : selectByRow T db c kvs j = some (get T db c j) := by
+      rw [selectByRow_eq h inv]; simp [hrow, hf]
+    obtain ⟨_, _, m, hm, hleaf, hcm⟩ := selectByRow_ok h inv hs
+    unfold deleteBy
+    rw [deleteSel_spec, hs, hm]
+    by_cases hc' : c' ∈ T.anc m
+    · simp [hc']
+    · simp only [hc', if_false]
+      cases hr : db c' j with
+      | none => rfl
+      | some r =>
+        exfalso
+        exact hc' ((C15_row_iff_on_chain T h db inv m j hleaf c'
+          (hroot.trans (root_of_mem h m c hcm))).mp (has_iff.mpr ⟨r, hr⟩))
+  · intro c' j hno
+    have hs : selectByRow T db c kvs j = none := by
+      rw [selectByRow_eq h inv]
+      have : ¬ ((db.has c j && kvsHold db j kvs) = true) := by simpa using hno
+      simp [this]
+    unfold deleteBy
+    rw [deleteSel_spec, hs]
 
 /-! ### the statements above in every reachable state -/
 
@@ -366,6 +400,10 @@ example : ¬ NoOrphan T0 (DB.empty.set 3 1 ⟨none, fun _ => 0⟩) := by
   intro inv
   obtain ⟨r, hr, _⟩ := inv.up 3 1 1 (by decide) (by decide)
   revert hr; simp [DB.set, DB.empty]
+example : [0, 1, 3].map (fun c => (deleteBy T0 db0 3 [(3, 0, 30)]).has c 1) = [false, false, false] := by decide
+example : [0, 1, 5].map (fun c => (deleteMany T0 db0 0 (.attr 0 0 .eq 7)).has c 2) = [false, false, false] := by
+  decide
+example : (deleteMany T0 db0 0 (.attr 0 0 .eq 7)).has 0 1 = true := by decide
 /-- … and so does a `destroySelf` that does not walk up to the parents -/
 example : ¬ NoOrphan T0 (destroyG false true T0 db0 3 1) := by
   intro inv
